@@ -128,6 +128,11 @@ func (o *scriptedOperator) Execute(ctx context.Context, info nextroute.SolveInfo
 	o.next++
 	e := o.execs[o.cur]
 	for _, r := range e.resets {
+		if r < 0 {
+			// what the restart operator does: reset to the solver's own best solution
+			info.Solver().Reset(info.Solver().BestSolution(), info)
+			continue
+		}
 		sol, err := solutionWithScore(ctx, info.Solver().Model(), r)
 		if err != nil {
 			o.err = err
@@ -168,6 +173,10 @@ func runSloop(b block) {
 			e := scriptedExec{canImprove: fs[1] == "1"}
 			e.work, _ = strconv.Atoi(fs[2])
 			for _, x := range fs[3:] {
+				if strings.HasPrefix(x, "b") {
+					e.resets = append(e.resets, -1) // b<score>: reset to the best solution (the score is for the model side)
+					continue
+				}
 				r, _ := strconv.Atoi(x)
 				e.resets = append(e.resets, r)
 			}
